@@ -60,6 +60,7 @@ class Staged:
         self.steps = []
         try:
             mod = accir.parse(text)
+            self.names.preseed(mod)
             self.before = accir.convert_module(mod, self.names)[fn]
             accir.trace_states(mod)
             self.traced = accir.convert_module(mod, self.names)[fn]
@@ -77,6 +78,13 @@ class Staged:
             self.error = ("crash", repr(e)[:300])
 
 
+def _func_name(op):
+    from xdsl.dialects import func
+    while op is not None and not isinstance(op, func.FuncOp):
+        op = op.parent_op()
+    return None if op is None else op.sym_name.data
+
+
 def record_dedup(mod, names, fn, hoist=True):
     """Run accfg-dedup with every pattern's match_and_rewrite wrapped; returns
     [(pattern name, matched setup out-state id, prog before, table before, prog after)] for each rewrite
@@ -90,7 +98,7 @@ def record_dedup(mod, names, fn, hoist=True):
 
         def wrapped(op, rewriter):
             from snaxc.dialects import accfg
-            if not isinstance(op, accfg.SetupOp):
+            if not isinstance(op, accfg.SetupOp) or _func_name(op) != fn:
                 return orig(op, rewriter)
             before = accir.convert_module(mod, names)[fn]
             tb = real_table(mod, names, fn)
@@ -121,3 +129,79 @@ HEADER = "From Snax Require Import Base.Prelude Model.AccIR Model.AccSem Model.A
 def shard(items, k):
     k = max(1, min(k, len(items)))
     return [items[i::k] for i in range(k)]
+
+
+def all_ids(prog) -> list[int]:
+    """every value id of a prog dict in program order (defs and uses), without duplicates"""
+    out, seen = [], set()
+
+    def add(x):
+        if x is not None and x not in seen:
+            seen.add(x)
+            out.append(x)
+
+    def walk(b):
+        for s in b:
+            o = s["op"]
+            if o == "pure":
+                add(s["dst"])
+                for x in s["exp"][1:]:
+                    if isinstance(x, int) and s["exp"][0] != "const":
+                        add(x)
+            elif o == "call":
+                for x in s["dsts"] + s["args"]:
+                    add(x)
+            elif o == "setup":
+                add(s["out"]); add(s["in"])
+                for _, v in s["fields"]:
+                    add(v)
+            elif o == "launch":
+                add(s["tok"]); add(s["state"])
+                for _, v in s["fields"]:
+                    add(v)
+            elif o == "await":
+                add(s["tok"])
+            elif o == "reset":
+                add(s["state"])
+            elif o == "for":
+                for x in (s["iv"], s["lb"], s["ub"], s["step"]):
+                    add(x)
+                for a, i, _ in s["iters"]:
+                    add(a); add(i)
+                for x in s["results"]:
+                    add(x)
+                walk(s["body"])
+                for x in s["yields"]:
+                    add(x)
+            elif o == "if":
+                add(s["cond"])
+                for r, _ in s["results"]:
+                    add(r)
+                walk(s["then"])
+                for x in s["then_y"]:
+                    add(x)
+                walk(s["else"])
+                for x in s["else_y"]:
+                    add(x)
+    for x in prog["params"]:
+        add(x)
+    walk(prog["body"])
+    return out
+
+
+def fresh_ids(before, after) -> list[int]:
+    old = set(all_ids(before))
+    return [x for x in all_ids(after) if x not in old]
+
+
+RULE_OF = {"SimplifyRedundantSetupCalls": "RSimplify", "PullSetupOpsOutOfLoops": "RPull", "MergeSetupOps": "RMerge",
+           "ElideEmptySetupOps": "RElide", "HoistSetupCallsIntoConditionals": "RHoist"}
+
+
+def step_case(step) -> str:
+    pat, target, before, tb, after = step
+    fr = fresh_ids(before, after)
+    return (f"({RULE_OF[pat]}, {tbl_coq(tb)}, {accir._nl(fr)}, {_n(target)}, {to_coq(before)}, {to_coq(after)})")
+
+
+HEADER_D = "From Snax Require Import Base.Prelude Model.AccIR Model.AccSem Model.AccInfer Model.AccDedup.\n"
